@@ -3,6 +3,7 @@ package main
 import (
 	"bytes"
 	"context"
+	"encoding/hex"
 	"encoding/json"
 	"fmt"
 	"io/ioutil"
@@ -1140,7 +1141,7 @@ func runAdmin(sec *vh.Section, cases []adminCase, verbose bool) {
 		res.Dist(sec, c.Kind+"/"+im.Kind)
 		m, modelled := ans[i]
 		if verbose {
-			fmt.Printf("admin %q over %d partitions: impl=%s model=%s\n", c.text(), c.Parts, im.line(), m)
+			fmt.Printf("admin %q over %d partitions: impl=%s %.200s model=%s\n", c.text(), c.Parts, im.line(), im.Val, m)
 		}
 		if im.Kind == "panic" || im.Kind == "timeout" {
 			f := vh.SpecFailure{Section: "admin", Kind: map[string]string{"panic": "panic", "timeout": "hang"}[im.Kind], Input: c, Impl: im.Kind + " " + im.Val, Spec: "a result or an error",
@@ -1210,6 +1211,60 @@ type e2eE struct {
 	Msg    string `json:"msg"`
 	Fields string `json:"fields"`
 }
+
+// Go strings are arbitrary bytes, JSON strings are not: encoding/json replaces invalid UTF-8 by U+FFFD, which would silently turn a
+// hostile request into a tame one on its way to the child process / the replay file. Texts that are not valid UTF-8 travel as "hex:…".
+func encS(s string) string {
+	if utf8.ValidString(s) && !strings.HasPrefix(s, "hex:") {
+		return s
+	}
+	return "hex:" + hex.EncodeToString([]byte(s))
+}
+
+func decS(s string) string {
+	if strings.HasPrefix(s, "hex:") {
+		if b, err := hex.DecodeString(s[4:]); err == nil {
+			return string(b)
+		}
+	}
+	return s
+}
+
+type e2eEPlain e2eE
+type e2eReqPlain e2eReq
+
+func (e e2eE) MarshalJSON() ([]byte, error) {
+	p := e2eEPlain(e)
+	p.Msg, p.Fields = encS(p.Msg), encS(p.Fields)
+	return json.Marshal(p)
+}
+
+func (e *e2eE) UnmarshalJSON(b []byte) error {
+	var p e2eEPlain
+	if err := json.Unmarshal(b, &p); err != nil {
+		return err
+	}
+	p.Msg, p.Fields = decS(p.Msg), decS(p.Fields)
+	*e = e2eE(p)
+	return nil
+}
+
+func (r e2eReq) MarshalJSON() ([]byte, error) {
+	p := e2eReqPlain(r)
+	p.Tags, p.Flds, p.Query, p.Pos = encS(p.Tags), encS(p.Flds), encS(p.Query), encS(p.Pos)
+	return json.Marshal(p)
+}
+
+func (r *e2eReq) UnmarshalJSON(b []byte) error {
+	var p e2eReqPlain
+	if err := json.Unmarshal(b, &p); err != nil {
+		return err
+	}
+	p.Tags, p.Flds, p.Query, p.Pos = decS(p.Tags), decS(p.Flds), decS(p.Query), decS(p.Pos)
+	*r = e2eReq(p)
+	return nil
+}
+
 type e2eBatch struct {
 	Reqs []e2eReq `json:"reqs"`
 }
